@@ -232,6 +232,40 @@ def r5(chk, ctx, sp):
                        key="%s | str.format applied to the non-literal `%s`" % (f.qname, norm(recv)), where=f.where(c),
                        message="user text as a format string exposes attribute access ({0.__class__}) and does not honour the \\{ \\} escapes of States.Format")
     chk.floor("C13.R5", n, 10, "str.format calls")
+    # States.Format itself: {} not preceded by a backslash is the only placeholder; arguments are consumed in order; \{ \} are unescaped afterwards
+    fm = intr.get("Format") if isinstance(intr, dict) else None
+    if fm is None:
+        fm = sp.funcs.get("evaluate_payload_template.evaluate_intrinsic_function.asl_intrinsic_Format")
+    if fm is None:
+        raise AnalysisError("anchor not found: asl_intrinsic_Format")
+    splits = [c for c in body_nodes(fm) if isinstance(c, ast.Call) and callname(c) == "re.split" and isinstance(c.args[0], ast.Constant)]
+    if splits:
+        import re._parser as rp
+        pat = list(rp.parse(splits[0].args[0].value))
+        shape = [(str(op), av if not isinstance(av, tuple) else None) for op, av in pat]
+        ok = len(pat) == 3 and str(pat[0][0]) == "ASSERT_NOT" and pat[0][1][0] == -1 and [(str(o), a) for o, a in pat[0][1][1]] == [("LITERAL", 92)] \
+            and (str(pat[1][0]), pat[1][1]) == ("LITERAL", 123) and (str(pat[2][0]), pat[2][1]) == ("LITERAL", 125)
+        chk.ob("C13.R5", "Format: the placeholder pattern is exactly `{}` not preceded by a backslash", ok, splits[0].args[0].value,
+               key="%s | placeholder pattern `%s`" % (fm.qname, splits[0].args[0].value), where=fm.where(splits[0]), message="only {} is substituted; \\{ and \\} are literal braces")
+        ok = norm(splits[0].args[1]) == "template_string"
+        chk.ob("C13.R5", "Format: the template is the first argument", ok, "", key="%s | split subject" % fm.qname, where=fm.where(), message="")
+        loops = [l for l in body_nodes(fm) if isinstance(l, ast.For)]
+        def _chain(e):
+            return _chain(e.left) + _chain(e.right) if isinstance(e, ast.BinOp) and isinstance(e.op, ast.Add) else [norm(e)]
+        ok = len(loops) == 1 and norm(loops[0].iter) == "zip(args, parts[1:])" and len(loops[0].body) == 1 and isinstance(loops[0].body[0], (ast.AugAssign, ast.Assign))
+        if ok:
+            st_ = loops[0].body[0]
+            acc = norm(st_.target if isinstance(st_, ast.AugAssign) else st_.targets[0])
+            ops = [x for x in _chain(st_.value) if x != acc]
+            tg = [norm(t) for t in loops[0].target.elts] if isinstance(loops[0].target, ast.Tuple) else []
+            ok = len(tg) == 2 and ops == ["str(%s)" % tg[0], tg[1]] and (isinstance(st_, ast.AugAssign) and isinstance(st_.op, ast.Add) or _chain(st_.value)[0] == acc)
+        chk.ob("C13.R5", "Format: arguments are substituted in order, each rendered with str()", ok, "", key="%s | substitution loop" % fm.qname, where=fm.where(),
+               message="Format substitutes arguments in order")
+        rets = [r for r in body_nodes(fm) if isinstance(r, ast.Return)]
+        ok = len(rets) == 1 and norm(rets[0].value) == "result.replace('\\\\{', '{').replace('\\\\}', '}')"
+        chk.ob("C13.R5", "Format: escaped braces are unescaped after substitution", ok, norm(rets[0].value) if rets else "", key="%s | unescaping" % fm.qname, where=fm.where(), message="honours escaped braces")
+        guard = [i for i in body_nodes(fm) if isinstance(i, ast.If) and norm(i.test) == "len(parts) - 1 > len(args)" and any(isinstance(x, ast.Raise) for x in i.body)]
+        chk.ob("C13.R5", "Format: fewer arguments than placeholders fails", len(guard) == 1, "", key="%s | argument count test" % fm.qname, where=fm.where(), message="ill-formed calls fail with States.IntrinsicFailure")
 
 
 def r6(chk, ctx, sp):
